@@ -20,7 +20,7 @@ func ZZ_C33_Arith() {
 	x, y := zzInt(xb), zzInt(yb)
 	k := vr.Int()
 	kb := big.NewInt(int64(k))
-	op := vr.Choose(0, 8)
+	op := vr.Choose(0, 9)
 	var r Integer
 	switch op {
 	case 0:
@@ -55,6 +55,19 @@ func ZZ_C33_Arith() {
 			hi := new(big.Int).Add(lo, kb)
 			vr.Assert(lo.Cmp(xb) <= 0, "div-floor-lower")
 			vr.Assert(xb.Cmp(hi) < 0, "div-floor-upper")
+		}
+	case 9:
+		// division by the small constants the code base actually uses (tenths, node counts):
+		// the divisor is concrete, the dividend arbitrary
+		kc := []int{1, 10, 7}[vr.Choose(0, 2)]
+		pan := vr.Catch(func() { r = x.Div(kc) })
+		vr.Assert(pan == (xb.Sign() < 0), "div-const-guard")
+		if !pan {
+			vr.Cover("div-const")
+			lo := new(big.Int).Mul(&r.i, big.NewInt(int64(kc)))
+			hi := new(big.Int).Add(lo, big.NewInt(int64(kc)))
+			vr.Assert(lo.Cmp(xb) <= 0, "div-const-floor-lower")
+			vr.Assert(xb.Cmp(hi) < 0, "div-const-floor-upper")
 		}
 	case 4:
 		var c uint64
